@@ -1,8 +1,14 @@
 // Copyright Amazon.com, Inc. or its affiliates. All Rights Reserved.
 // SPDX-License-Identifier: Apache-2.0
 
+#[cfg(not(kani))]
 use hashbrown::Equivalent;
+#[cfg(not(kani))]
 use hashbrown::hash_map::EntryRef;
+// `cargo kani` only: a Vec-backed model with hashbrown's API (see kani_hashbrown.rs); the name
+// `hashbrown` below then refers to the model
+#[cfg(kani)]
+use crate::kani_hashbrown::{self as hashbrown, Equivalent, hash_map::EntryRef};
 use itertools::Itertools;
 use metrique_writer::sample::DefaultRng;
 use metrique_writer::value::{FlagConstructor, ForceFlag, MetricOptions};
@@ -3613,6 +3619,100 @@ pub mod verif_hooks {
             !emf.validation.skip_validate_unique,
             !emf.validation.skip_validate_dimensions_exist,
             !emf.validation.skip_validate_names,
+        )
+    }
+
+    /// An `Emf` in the state `Emf::builder("N", vec![dims]).skip_all_validations(!validate).build()`
+    /// produces, where `dims` is `["A"]` if `dimension_a` and `[]` otherwise - except that the
+    /// reusable buffers start with small capacities. `build()` itself (serde_json / `format!` over
+    /// the configuration) is far too large a program for CBMC; what it computes for these two
+    /// configurations are the constants written out here.
+    pub fn emf_small(validate: bool, dimension_a: bool) -> Emf {
+        let dimensions_after_ns = r#","Dimensions":["#;
+        let dimensions_prefix = r#"{"_aws":{"CloudWatchMetrics":[{"Namespace":"N","Dimensions":["#;
+        let mut validation_map_base = hashbrown::HashMap::new();
+        if dimension_a {
+            validation_map_base
+                .entry_ref(&String::from("A"))
+                .or_insert(LineData {
+                    kind: LineKind::UnfoundDimension,
+                });
+        }
+        Emf {
+            state: State {
+                namespaces: vec![JsonEncodedString {
+                    encoded_str: String::from("\"N\""),
+                }],
+                each_dimensions_str: vec![JsonEncodedArray {
+                    encoded_array: String::from(if dimension_a { "[\"A\"]" } else { "[]" }),
+                }],
+                dimension_set_map: hashbrown::HashMap::new(),
+                after_namespace_index: dimensions_prefix.len() - dimensions_after_ns.len(),
+                dimensions_buf: PrefixedStringBuf::new(dimensions_prefix, 96),
+                fields_buf: PrefixedStringBuf::new("}", 64),
+                string_fields_buf: PrefixedStringBuf::new("", 64),
+                counts_buf: PrefixedStringBuf::new(r#"],"Counts":["#, 40),
+                metrics_buf: PrefixedStringBuf::new(r#"],"Metrics":["#, 96),
+                decl_buf: PrefixedStringBuf::new("", 16),
+                allow_ignored_dimensions: false,
+                log_group_and_timestamp: LogGroupNameAndTimestampString {
+                    encoded: String::from(r#"],"Timestamp":"#),
+                },
+            },
+            validation_map_base,
+            validation: if validate {
+                Validation::default()
+            } else {
+                Validation {
+                    skip_validate_unique: true,
+                    skip_validate_dimensions_exist: true,
+                    skip_validate_names: true,
+                }
+            },
+        }
+    }
+
+    /// What `format_with_multiplicity` does up to (not including) `finish()`: reset the buffers,
+    /// build the per-call `EntryWriter` and let the entry write into it. Returns
+    /// (a validation error was recorded, fields text, string-fields text, metric declarations text).
+    /// `finish()` (document assembly through `write_all_vectored` over `SmallVec<[_; 5]>`) does not
+    /// fit into a CBMC run (measured: out of memory at 40 GB for an empty entry).
+    pub fn write_entry_without_finish<'e>(
+        emf: &'e mut Emf,
+        entry: &'e impl Entry,
+        multiplicity: Option<u64>,
+    ) -> bool {
+        emf.state.string_fields_buf.clear();
+        emf.state.fields_buf.clear();
+        emf.state.metrics_buf.clear();
+        emf.state.decl_buf.clear();
+        emf.state.dimension_set_map.clear();
+        let mut writer = EntryWriter {
+            validation_map: if emf.validation.skip_validate_dimensions_exist {
+                hashbrown::HashMap::new()
+            } else {
+                emf.validation_map_base.clone()
+            },
+            entry_dimensions: None,
+            state: &mut emf.state,
+            multiplicity,
+            timestamp: None,
+            validations: &emf.validation,
+            error: ValidationErrorBuilder::default(),
+            allow_split_entries: false,
+            is_allow_unroutable_entries: false,
+        };
+        entry.write(&mut writer);
+        let timestamps_ok = writer.timestamp.is_some();
+        let _ = timestamps_ok;
+        writer.error.build().is_err()
+    }
+
+    pub fn buffers(emf: &Emf) -> (&str, &str, &str) {
+        (
+            emf.state.fields_buf.as_str(),
+            emf.state.string_fields_buf.as_str(),
+            emf.state.metrics_buf.as_str(),
         )
     }
 
